@@ -164,7 +164,8 @@ Lemma ow_new_data_eq s c id o addr data :
         if crc8 (removelast data) =? crc then
           match parse_elems (S (length data)) (removelast (skipn 2 data)) [] with
           | Some el => fin s c id (mkOW (ow_upd o) true (ow_hdr o) el)
-          | None => ((s, c), [IRaise])
+          | None => ((set_mems s (set_ow id (mkOW (ow_upd o) (ow_valid o) (ow_hdr o)
+                                     (parse_prefix (S (length data)) (removelast (skipn 2 data)) [])) (i_mems s)), c), [IRaise])
           end
         else fin s c id o
     end
